@@ -604,7 +604,7 @@ def check(ctx, rep):
     rep.rule("R03b", "request-tainted partial operations (index, unpack, int(), next(), urlparse, match.group, e.args[k]) are guarded", floor=25)
     rep.rule("R03c", "handler lookup never falls through silently", floor=1)
     rep.rule("R03d", "history independence: persistent writes are exactly the two cache files; module-level state is only lazily initialised from configuration, never mutated per request", floor=2)
-    rep.rule("R03f", "the stat performed on a still unfiltered selector catches ValueError (embedded NUL) as well as OSError", floor=2)
+    rep.rule("R03f", "the stat performed on a still unfiltered selector catches ValueError (embedded NUL) as well as OSError", floor=1)
     rep.rule("R03g", "status lines echo request text only after line breaks were collapsed", floor=2)
     rep.rule("R03h", "a Gopher+ `+N` status line announces the number of bytes that follow: transforming handlers leave the size unset, menus use the unknown-length marker", floor=5)
     rep.rule("R03i", "partial operations on text read from content files (link files, gophermaps, sidecars): index, unpack, int() are guarded", floor=8)
@@ -869,7 +869,9 @@ def pregate_functions(ctx, eff):
             pre.append((g, None))
             for call, t in eff.calls_of(g, None):
                 if t.kind == "repo" and not t.by_name:
-                    work.extend(f2 for f2 in t.funcs if f2.cls is None and f2.module is g.module)
+                    # module-level helpers (of the multiplexer's module, or small shared ones such as a stat-or-None function)
+                    work.extend(f2 for f2 in t.funcs if f2 is not None and f2.cls is None and f2.module.name.startswith("pygopherd")
+                                and (f2.module is g.module or len(f2.node.body) <= 8))
     for H in ctx.handler_classes():
         init = prog.resolve_method(H, "__init__")
         work = [init] if init is not None else []
@@ -914,10 +916,27 @@ def pregate_flow_obligations(ctx, rep, rule, eff):
     path outside the root exists."""
     from ..structure import parents
     pre = pregate_functions(ctx, eff)
+    stat_helpers = set()
+    for m, H in pre:
+        if H is not None:
+            continue
+        looks = [call for call, t in eff.calls_of(m, H) if eff.is_vfs_call(t) and t.funcs[0].name in ("stat", "exists", "isdir", "isfile")]
+        if not looks:
+            continue
+        rets = [n for n in ast.walk(m.node) if isinstance(n, ast.Return)]
+        stmts = [n for n in ast.walk(m.node) if isinstance(n, ast.stmt) and n is not m.node]
+        simple = all(isinstance(n, (ast.Return, ast.Try, ast.With, ast.Pass, ast.Expr)) and
+                     (not isinstance(n, ast.Expr) or isinstance(n.value, ast.Constant)) for n in stmts)
+        if simple and rets and all(r.value is None or isinstance(r.value, ast.Constant) or r.value in looks for r in rets) and any(r.value in looks for r in rets):
+            stat_helpers.add(m)
     for m, H in pre:
         if H is not None:
             continue
         stat_calls = [call for call, t in eff.calls_of(m, H) if eff.is_vfs_call(t) and t.funcs[0].name in ("stat", "listdir", "open", "exists", "isdir", "isfile")]
+        # a helper that only looks and hands back what it found (or None): its callers hold the result
+        stat_calls += [call for call, t in eff.calls_of(m, H) if t.kind == "repo" and any(f_ in stat_helpers for f_ in t.funcs)]
+        if m in stat_helpers:
+            continue
         if not stat_calls:
             continue
         pm = parents(m.node)
